@@ -129,20 +129,21 @@ def noCallback : List String := nodeNames.filter (fun n => !n.startsWith "_" && 
 
 theorem no_callback_rules : noCallback =
   ["primary_expr", "enumeration_constant", "generic_selection", "generic_assoc_list", "generic_association",
-   "expr", "constant_expr", "init_declarator_list", "storage_class_specifier", "struct_or_union_specifier",
+   "constant_expr", "init_declarator_list", "storage_class_specifier", "struct_or_union_specifier",
    "struct_or_union", "struct_declaration_list", "struct_declaration", "struct_declarator_list", "struct_declarator",
    "enum_specifier", "enumerator_list", "enumerator", "atomic_type_specifier", "type_qualifier", "function_specifier",
    "alignment_specifier", "declarator", "direct_declarator", "pointer", "type_qualifier_list", "parameter_type_list",
    "parameter_list", "parameter_declaration", "identifier_list", "type_name", "abstract_declarator",
    "direct_abstract_declarator", "initializer", "initializer_list", "designation", "designator_list", "designator",
-   "static_assert_declaration", "stmt", "labeled_stmt", "op", "reg_alias_new_postfix", "float_number", "c_size_type",
+   "static_assert_declaration", "stmt", "op", "reg_alias_new_postfix", "float_number", "c_size_type",
    "c_int_type", "data_type"] := by
   decide +kernel
 
-/-- every statement-level production the transformer is meant to translate or reject HAS a callback -/
+/-- every statement-level production the transformer is meant to translate or reject HAS a callback (since the repair
+    of the silent drops this includes labelled statements and the comma alternative of `expr`, which raise) -/
 theorem statement_rules_have_callbacks :
     ["compound_stmt", "expr_stmt", "selection_stmt", "iteration_stmt", "jump_stmt", "declaration", "assignment_expr",
-     "block_item", "for_loop", "cancel_slot_stmt"].all (fun n => !nodeNames.contains n || callbackNames.contains n) = true := by
+     "block_item", "for_loop", "cancel_slot_stmt", "labeled_stmt", "expr"].all (fun n => !nodeNames.contains n || callbackNames.contains n) = true := by
   decide +kernel
 
 end Rzil
